@@ -40,11 +40,11 @@ theorem heldOk_of_none {w : Worker} (h : w.held = none) : HeldOk w := by
   intro hh; simp [h] at hh
 
 theorem workerLoopTop_wid (f : Bool) (w : Worker) : (workerLoopTop f w).wid = w.wid := by
-  unfold workerLoopTop workerExit
+  unfold workerLoopTop workerEnding
   split <;> (try split) <;> rfl
 
 theorem workerLoopTop_held (f : Bool) (w : Worker) (h : w.held = none) : (workerLoopTop f w).held = none := by
-  unfold workerLoopTop workerExit
+  unfold workerLoopTop workerEnding
   split <;> (try split) <;> simp [h]
 
 /-! ## workers -/
@@ -93,7 +93,7 @@ theorem safe_stepW (s s' : St) (wid : Nat) (hf : NoFaults s.cfg) (h : SafeInv s)
         simp only [Option.some.injEq] at hs
         subst hs
         exact safe_setWorker s h wid w _ hg (by exact hwid) r s.resQ s.replQ s.lock
-          (by rw [hq, hnone]; simp [workerExit]) (by exact heldOk_of_none rfl) (by simp [hpc])
+          (by rw [hq, hnone]; simp [workerEnding]) (by exact heldOk_of_none rfl) (by simp [hpc])
       · rename_i i r hq
         simp only [hi, Bool.false_eq_true, if_false, Option.some.injEq] at hs
         subst hs
@@ -159,15 +159,10 @@ theorem safe_stepW (s s' : St) (wid : Nat) (hf : NoFaults s.cfg) (h : SafeInv s)
         cases hh : w.held with
         | none => rfl
         | some i => exact absurd (hH (by simp [hh])) (by simp [hpc])
-      split at hs
-      · simp only [Option.some.injEq] at hs
-        subst hs
-        exact safe_setWorker s h wid w _ hg (by exact hwid) s.workQ s.resQ _ s.lock
-          (by rw [hnone]) (by exact heldOk_of_none hnone) (by simp [hpc])
-      · simp only [Option.some.injEq] at hs
-        subst hs
-        exact safe_setWorker s h wid w _ hg (by exact hwid) s.workQ s.resQ _ s.lock
-          (by rw [hnone]; simp [workerExit]) (by exact heldOk_of_none rfl) (by simp [hpc])
+      simp only [Option.some.injEq] at hs
+      subst hs
+      exact safe_setWorker s h wid w _ hg (by exact hwid) s.workQ s.resQ _ s.lock
+        (by rw [hnone]; simp [workerEnding]) (by exact heldOk_of_none rfl) (by simp [hpc])
     · -- ending
       have hnone : w.held = none := by
         cases hh : w.held with
